@@ -27,7 +27,8 @@ claim("C04", "model_checking",
       "as-coded model of ExecutionController (all DAGs, guard valuations, request scripts, cut points and "
       "every iteration order of the unordered containers, N<=4/5) model-checked against the visit "
       "contract; callback sequences recorded from the real controller on enumerated and random graphs "
-      "validated by TLC against the same contract",
+      "validated by TLC against the same contract; liveness of the as-coded model under weak fairness (a started "
+      "step ends, all steps are taken, every visit decreases the unvisited set; no state constraint, N<=4/5)",
       "trusted: the recording target and the Python-side graph enumeration; real set iteration orders "
       "are only sampled (id spellings), all orders are covered in the as-coded model, whose conformance "
       "with the recorded plans is checked and reported as drift",
@@ -131,7 +132,8 @@ claim("C11", "fault_enumeration",
 
 claim("C16", "model_checking",
       "pairs of builder programs (TLC-generated, overlapping temporaries, flags and statement ids) are fused "
-      "by the real fuse_two_dags under four renaming predicates; TLC checks the fused statements against a "
+      "by the real fuse_two_dags under four renaming predicates, half of them after a history of other public queries "
+      "(get_variables with and without function symbols) on equal expressions; TLC checks the fused statements against a "
       "witness (unique ids, dependencies intact, renaming a consistent injective function incl. guards, renamed "
       "exactly as asked) and executes the fused phase in every admissible order x guard valuation requiring each "
       "method's persistent results to equal what its own statements produce",
@@ -153,7 +155,7 @@ claim("C19", "model_checking",
 claim("C18", "model_checking",
       "every compound expression up to the node bound over sums, products, powers and calls (TLC-enumerated) plus "
       "simulated larger ones with quotients and subscripts is given to the real collapse_constants with every subset "
-      "of its variables declared free; TLC judges each answer (same value with the hoisted assignments carried out, "
+      "of its variables declared free, and with each of its function symbols declared free; TLC judges each answer (same value with the hoisted assignments carried out, "
       "no free variable in a hoisted term, every new variable assigned once, no exception)",
       "trusted: expression conversion; integer/boolean value comparison; expression classes restricted to those the "
       "property names",
